@@ -27,6 +27,7 @@ theorem drop_entry (body rest : Bytes) :
 theorem lpNext_enc (e : LPEntry) (rest : Bytes) (h : e.wf) :
     lpNext (e.enc ++ rest) = some (e.val, rest) := by
   have hdrop := drop_entry e.body rest
+  have c255 : (0xFF : UInt8).toNat = 255 := by decide
   unfold LPEntry.enc
   cases e with
   | u7 v =>
@@ -164,41 +165,126 @@ theorem lpTake_append (a b : List LPEntry) (rest : Bytes) :
     lpEntries (a ++ b) ++ rest = lpEntries a ++ (lpEntries b ++ rest) := by
   simp [lpEntries]
 
-theorem lpNew_blob (es : List LPEntry) (h : es.length < 65535) :
-    lpNew (lpBlob es) = some (es.length, lpEntries es ++ [0xFF]) := by
-  unfold lpNew lpBlob
-  simp only [h, if_true]
-  generalize hA : leN 4 (6 + (lpEntries es).length + 1) = A
-  have hAl : A.length = 4 := by rw [← hA]; exact leN_length 4 _
-  have hCl : (leN 2 es.length).length = 2 := leN_length 2 _
-  have hlen : ¬ (A ++ leN 2 es.length ++ lpEntries es ++ [0xFF]).length < 6 := by
+/-- the count field of a blob: the length, or 65535 ("unknown") from 65535 elements on -/
+def lpCount (es : List LPEntry) : Nat := if es.length < 65535 then es.length else 65535
+
+theorem lpNew_shape (A C body : Bytes) (hAl : A.length = 4) (hCl : C.length = 2) :
+    lpNew (A ++ C ++ body ++ [0xFF]) = some (ofLE C, body ++ [0xFF]) := by
+  unfold lpNew
+  have hlen : ¬ (A ++ C ++ body ++ [0xFF]).length < 6 := by
     simp only [List.length_append, hAl, hCl]; omega
   simp only [hlen, if_false]
-  have e6 : (A ++ leN 2 es.length ++ lpEntries es ++ [0xFF]) = (A ++ leN 2 es.length) ++ (lpEntries es ++ [0xFF]) := by simp
-  have e4 : (A ++ leN 2 es.length ++ lpEntries es ++ [0xFF]) = A ++ (leN 2 es.length ++ (lpEntries es ++ [0xFF])) := by simp
-  have l6 : (A ++ leN 2 es.length).length = 6 := by simp [hAl, hCl]
-  have d6 : (A ++ leN 2 es.length ++ lpEntries es ++ [0xFF]).drop 6 = lpEntries es ++ [0xFF] := by
+  have e6 : (A ++ C ++ body ++ [0xFF]) = (A ++ C) ++ (body ++ [0xFF]) := by simp
+  have e4 : (A ++ C ++ body ++ [0xFF]) = A ++ (C ++ (body ++ [0xFF])) := by simp
+  have l6 : (A ++ C).length = 6 := by simp [hAl, hCl]
+  have d6 : (A ++ C ++ body ++ [0xFF]).drop 6 = body ++ [0xFF] := by
     rw [e6, List.drop_left' l6]
-  have d4 : ((A ++ leN 2 es.length ++ lpEntries es ++ [0xFF]).drop 4).take 2 = leN 2 es.length := by
+  have d4 : ((A ++ C ++ body ++ [0xFF]).drop 4).take 2 = C := by
     rw [e4, List.drop_left' hAl, List.take_left' hCl]
-  rw [d6, d4, ofLE_leN' 2 es.length (by have : (256:Nat)^2 = 65536 := by decide
-                                        omega)]
+  rw [d6, d4]
 
-/-- a well-formed listpack blob yields exactly its entries' values -/
+theorem lpNew_blob' (es : List LPEntry) :
+    lpNew (lpBlob es) = some (lpCount es, lpEntries es ++ [0xFF]) := by
+  unfold lpBlob
+  dsimp only
+  rw [lpNew_shape _ _ _ (leN_length 4 _) (leN_length 2 _)]
+  have p2 : (256 : Nat) ^ 2 = 65536 := by decide
+  have hn16 : (if es.length < 65535 then es.length else 65535) < 256 ^ 2 := by
+    rw [p2]; split <;> omega
+  rw [ofLE_leN' 2 _ hn16]
+  rfl
+
+theorem lpNew_blob (es : List LPEntry) (h : es.length < 65535) :
+    lpNew (lpBlob es) = some (es.length, lpEntries es ++ [0xFF]) := by
+  rw [lpNew_blob']; simp [lpCount, h]
+
+/-- no element starts with the end marker -/
+theorem lpEntry_head (e : LPEntry) (h : e.wf) (X : Bytes) : ∃ b r, e.enc ++ X = b :: r ∧ b ≠ 0xFF := by
+  have c255 : (0xFF : UInt8).toNat = 255 := by decide
+  unfold LPEntry.enc
+  cases e with
+  | u7 v =>
+    have h : v < 128 := h
+    exact ⟨UInt8.ofNat v, _, rfl, u8_ne v 0xFF (by omega) (by omega)⟩
+  | s6 s =>
+    have h : s.length < 64 := h
+    exact ⟨UInt8.ofNat (0x80 + s.length), _, rfl, u8_ne _ 0xFF (by omega) (by omega)⟩
+  | i13 v =>
+    have hlt := ofSigned_lt 13 v (by decide) h
+    have hlt' : ofSigned 13 v < 8192 := by simpa using hlt
+    exact ⟨UInt8.ofNat (0xC0 + ofSigned 13 v / 256), _, rfl, u8_ne _ 0xFF (by omega) (by omega)⟩
+  | s12 s =>
+    have h : s.length < 4096 := h
+    exact ⟨UInt8.ofNat (0xE0 + s.length / 256), _, rfl, u8_ne _ 0xFF (by omega) (by omega)⟩
+  | s32 s => exact ⟨0xF0, _, rfl, by decide⟩
+  | i16 v => exact ⟨0xF1, _, rfl, by decide⟩
+  | i24 v => exact ⟨0xF2, _, rfl, by decide⟩
+  | i32 v => exact ⟨0xF3, _, rfl, by decide⟩
+  | i64 v => exact ⟨0xF4, _, rfl, by decide⟩
+
+theorem lpUntilEnd_entries (es : List LPEntry) (fuel : Nat) (hf : es.length < fuel) (h : ∀ e ∈ es, e.wf) :
+    lpUntilEnd fuel (lpEntries es ++ [0xFF]) = some (es.map LPEntry.val) := by
+  induction es generalizing fuel with
+  | nil =>
+    obtain ⟨f, rfl⟩ : ∃ f, fuel = f + 1 := ⟨fuel - 1, by simp at hf; omega⟩
+    simp [lpUntilEnd, lpEntries]
+  | cons e es ih =>
+    obtain ⟨f, rfl⟩ : ∃ f, fuel = f + 1 := ⟨fuel - 1, by simp at hf; omega⟩
+    have hw := h e (List.mem_cons_self ..)
+    have hcons : lpEntries (e :: es) ++ [0xFF] = e.enc ++ (lpEntries es ++ [0xFF]) := by simp [lpEntries]
+    obtain ⟨b, r, hbr, hne⟩ := lpEntry_head e hw (lpEntries es ++ [0xFF])
+    rw [hcons]
+    have hnext := lpNext_enc e (lpEntries es ++ [0xFF]) hw
+    rw [hbr] at hnext ⊢
+    simp only [lpUntilEnd, hne, if_false, hnext]
+    rw [ih f (by simp at hf; omega) (fun x hx => h x (List.mem_cons_of_mem _ hx))]
+    rfl
+
+theorem lpEntries_length_ge' (es : List LPEntry) : es.length ≤ (lpEntries es).length := by
+  induction es with
+  | nil => simp [lpEntries]
+  | cons e es ih =>
+    have hc : lpEntries (e :: es) = e.enc ++ lpEntries es := by simp [lpEntries]
+    rw [hc, List.length_append, List.length_cons]
+    have : 1 ≤ e.enc.length := by
+      unfold LPEntry.enc
+      rw [List.length_append]
+      have : 1 ≤ (lpBacklen e.body.length).length := by
+        unfold lpBacklen
+        split
+        · simp
+        · split
+          · simp
+          · split
+            · simp
+            · split <;> simp
+      omega
+    omega
+
+/-- a well-formed listpack blob of ANY number of elements yields exactly its
+    entries' values (count field 65535: walked to the end marker) -/
 theorem lpAll_blob (es : List LPEntry) (h : lpWf es) : lpAll (lpBlob es) = some (es.map LPEntry.val) := by
   unfold lpAll
-  rw [lpNew_blob es h.2]
+  rw [lpNew_blob']
   simp only
-  rw [lpTake_entries es [0xFF] h.1]
-  rfl
+  by_cases hl : es.length < 65535
+  · have hc : lpCount es = es.length := by simp [lpCount, hl]
+    have hne : ¬ (es.length = 65535) := by omega
+    simp only [hc, hne, if_false]
+    rw [lpTake_entries es [0xFF] h]
+    rfl
+  · have hc : lpCount es = 65535 := by simp [lpCount, hl]
+    simp only [hc, if_true]
+    apply lpUntilEnd_entries es _ _ h
+    have := lpEntries_length_ge' es
+    unfold lpBlob
+    simp only [List.length_append]
+    omega
 
 theorem lpPairs_blob (es : List LPEntry) (h : lpWf es) (he : es.length % 2 = 0) :
     lpPairs (lpBlob es) = some (pairUp (es.map LPEntry.val)) := by
   unfold lpPairs
-  rw [lpNew_blob es h.2]
-  simp only
-  have : ¬ (es.length % 2 ≠ 0) := by omega
-  simp only [this, if_false]
-  rw [lpTake_entries es [0xFF] h.1]
+  rw [lpAll_blob es h]
+  simp [he]
 
 end GunYu.Rdb
